@@ -737,9 +737,45 @@ def _cmp_switches(b):
     return out
 
 
+def _in_range_loop_below_runlength(b, blk):
+    """the block sits in a `for _ in k..run_length` loop with k >= 1: it runs at most run_length - 1 times"""
+    cfg = b.cfg
+    for h, body in cfg.loops:
+        if blk not in body:
+            continue
+        t = b.blocks[h]["t"]
+        if t["k"] != "call" or not (t["callee"].get("def") or "").endswith("Iterator::next") or "ops::range::Range<usize>" not in (t["callee"].get("inst") or ""):
+            continue
+        # &mut iter -> iter -> into_iter(range) -> Range { start, end }
+        it = t["args"][0]
+        if it.get("k") not in ("copy", "move"):
+            continue
+        l = _param_root(b, it["pl"]["l"], through_refs=True)
+        for _ in range(4):
+            d = _single_def(b, l)
+            if d is None:
+                break
+            if d.get("k") == "call" and (d["t"]["callee"].get("def") or "").endswith("IntoIterator::into_iter") and d["t"]["args"][0].get("k") in ("copy", "move"):
+                l = d["t"]["args"][0]["pl"]["l"]
+                continue
+            if d.get("k") == "use" and d["op"].get("k") in ("copy", "move"):
+                l = d["op"]["pl"]["l"]
+                continue
+            if d.get("k") == "agg" and (d.get("adt") or "").endswith("ops::range::Range") and len(d.get("ops", [])) == 2:
+                lo, hi = d["ops"]
+                lo_c = const_of(b, lo)
+                if lo_c and isinstance(lo_c.get("int"), int) and lo_c["int"] >= 1 and hi.get("k") in ("copy", "move") \
+                        and any(x == "get_seg_length_at" for x in _all_defs(b, hi["pl"]["l"])):
+                    return True
+            break
+    return False
+
+
 def _guarded_by_runlength(b, blk):
     cfg = b.cfg
     nparams = len(b.param_tys)
+    if _in_range_loop_below_runlength(b, blk):
+        return True
     for sb, t_succ, f_succ, op, a, c in _cmp_switches(b):
         if op != "Gt" or a.get("k") not in ("copy", "move"):
             continue
